@@ -162,7 +162,10 @@ pub fn supervise(prop: &Property, tier: Tier) -> i32 {
                 break;
             }
         };
-        match wait_with_watchdog(child, &hb, WATCHDOG_SECS) {
+        // C20's cases take milliseconds: a worker that makes no progress for 3 minutes is stuck (deadlock = liveness,
+        // reported as inconclusive, never as a violation)
+        let watchdog = if prop.id == "C20" { 180 } else { WATCHDOG_SECS };
+        match wait_with_watchdog(child, &hb, watchdog) {
             ChildEnd::Exit(0) => match std::fs::read_to_string(&out)
                 .ok()
                 .and_then(|s| serde_json::from_str::<WorkerReport>(&s).ok())
@@ -175,7 +178,7 @@ pub fn supervise(prop: &Property, tier: Tier) -> i32 {
             },
             ChildEnd::Exit(c) => inconclusive = Some(format!("worker ({profile}) exited with code {c}")),
             ChildEnd::Watchdog => {
-                inconclusive = Some(format!("watchdog: no progress for {WATCHDOG_SECS}s in worker ({profile})"))
+                inconclusive = Some(format!("watchdog: no progress for {watchdog}s in worker ({profile}) - a case hangs or is far too slow"))
             }
             ChildEnd::Signal(sig) => {
                 // Process death: find the case from the breadcrumbs by strict replay in fresh children.
